@@ -207,6 +207,8 @@ pub struct Profile {
     pub allow_initial_joint: bool,
     /// probability (x/256) that a case uses the structured scenario (mode 1)
     pub mode1_p: u8,
+    /// extra probability (x/256) of a single-voter group
+    pub sole_p: u8,
 }
 
 fn pick<T: Copy>(table: &[T], b: u8) -> T {
@@ -220,6 +222,9 @@ pub fn node_of(b: u8) -> u8 {
 impl Profile {
     pub fn decode_scenario(&self, r: &[u8; RAW_SCEN]) -> Scenario {
         let mut nv = pick(&[3usize, 3, 1, 2, 3, 5, 4, 3, 2, 5, 4, 3], r[0]);
+        if r[33] < self.sole_p {
+            nv = 1;
+        }
         if nv < self.min_voters {
             nv = self.min_voters;
         }
